@@ -67,8 +67,10 @@ def kwargs_for(c, V, fixed_dict, explicit=False):
     kw["normalize_windows"] = bool(c["wnorm"])
     wf = []
     for w in wins:
-        wf.append(table_fn(w["table"]) if w["table"] else "fixed")
+        wf.append(table_fn(w["table"]) if w["table"] else ("fixed" if w.get("var") is None else "variable"))
     kw["window_functions"] = wf
+    if any(w.get("var") is not None for w in wins):
+        kw["window_args"] = [{} if w.get("var") is None else {"power": float(w["var"])} for w in wins]
     if fixed_dict:
         kw["token_dictionary"] = {TOKS[i]: i for i in range(V)}
     return kw
